@@ -229,12 +229,77 @@ fn rejects<R: Rep>() {
         3 => core::mem::forget(R::cycle(0)),
         4 => core::mem::forget(R::path(0)),
         5 => core::mem::forget(R::star(0)),
-        6 => core::mem::forget(R::wheel(nd::below(4))),
-        7 => core::mem::forget(R::biclique(0, nd::below(3))),
-        _ => core::mem::forget(R::biclique(nd::below(3), 0)),
+        6 => match nd::below(4) {
+            0 => core::mem::forget(R::wheel(0)),
+            1 => core::mem::forget(R::wheel(1)),
+            2 => core::mem::forget(R::wheel(2)),
+            _ => core::mem::forget(R::wheel(3)),
+        },
+        7 => match nd::below(3) {
+            0 => core::mem::forget(R::biclique(0, 0)),
+            1 => core::mem::forget(R::biclique(0, 1)),
+            _ => core::mem::forget(R::biclique(0, 2)),
+        },
+        _ => match nd::below(2) {
+            0 => core::mem::forget(R::biclique(1, 0)),
+            _ => core::mem::forget(R::biclique(2, 0)),
+        },
     }
 
     crate::rejected_call_returned();
+}
+
+fn all_at_light<R: Rep>(n: usize) {
+    let d = R::empty(n);
+
+    is_light(&d, n, |_, _| false);
+    core::mem::forget(d);
+
+    let d = R::complete(n);
+
+    is_light(&d, n, |_, _| true);
+    core::mem::forget(d);
+
+    let d = R::circuit(n);
+
+    is_light(&d, n, |u, v| v == (u + 1) % n);
+    core::mem::forget(d);
+
+    let d = R::cycle(n);
+
+    is_light(&d, n, |u, v| v == (u + 1) % n || u == (v + 1) % n);
+    core::mem::forget(d);
+
+    let d = R::path(n);
+
+    is_light(&d, n, |u, v| v == u + 1);
+    core::mem::forget(d);
+
+    let d = R::star(n);
+
+    is_light(&d, n, |u, v| u == 0 || v == 0);
+    core::mem::forget(d);
+
+    if n >= 4 {
+        let d = R::wheel(n);
+        let rim = n - 1;
+
+        is_light(&d, n, |u, v| {
+            u == 0
+                || v == 0
+                || (u >= 1 && v >= 1 && ((v - 1) == (u - 1 + 1) % rim || (u - 1) == (v - 1 + 1) % rim))
+        });
+        core::mem::forget(d);
+    }
+}
+
+fn orders_light<R: Rep>(lo: usize, hi: usize) {
+    cx::set_vcap(hi + 1);
+    cx::set_parallelism(1);
+
+    for n in lo..=hi {
+        all_at_light::<R>(n);
+    }
 }
 
 fn orders<R: Rep>(lo: usize, hi: usize) {
@@ -246,12 +311,20 @@ fn orders<R: Rep>(lo: usize, hi: usize) {
     }
 }
 
-// AdjacencyMatrix (real std) at orders 1..=5.
+// AdjacencyMatrix (real std): every generator at orders 1..=3 with full comparison (arcs(), vertices()).
 // @verif prop=C14 tier=quick fl=f0 role=orders/matrix t=1200 mem=12
 #[cfg_attr(kani, kani::proof)]
 #[cfg_attr(kani, kani::unwind(8))]
-pub fn c14_matrix_orders_1_5() {
-    orders::<AdjacencyMatrix>(1, 5);
+pub fn c14_matrix_orders_1_3() {
+    orders::<AdjacencyMatrix>(1, 3);
+}
+
+// AdjacencyMatrix: every generator at orders 4 and 5 (wheel included).
+// @verif prop=C14 tier=quick fl=f0 role=orders/matrix t=1500 mem=14
+#[cfg_attr(kani, kani::proof)]
+#[cfg_attr(kani, kani::unwind(8))]
+pub fn c14_matrix_orders_4_5() {
+    orders_light::<AdjacencyMatrix>(4, 5);
 }
 
 // AdjacencyMatrix at order 8: 64 cells = exactly one 64-bit block (complete, empty, circuit, star).
@@ -272,41 +345,62 @@ pub fn c14_matrix_order_9() {
 
 // @verif prop=C14 tier=quick fl=f1 role=orders/edge-list t=1200 mem=12
 #[cfg_attr(kani, kani::proof)]
-#[cfg_attr(kani, kani::unwind(8))]
-pub fn c14_edge_list_orders_1_5() {
-    orders::<EdgeList>(1, 5);
+#[cfg_attr(kani, kani::unwind(9))]
+pub fn c14_edge_list_orders_1_3() {
+    orders::<EdgeList>(1, 3);
+}
+
+// @verif prop=C14 tier=quick fl=f1 role=orders/edge-list t=1500 mem=14
+#[cfg_attr(kani, kani::proof)]
+#[cfg_attr(kani, kani::unwind(22))]
+pub fn c14_edge_list_orders_4_5() {
+    orders_light::<EdgeList>(4, 5);
 }
 
 // @verif prop=C14 tier=quick fl=f2 role=orders/adjacency-list t=1200 mem=12
 #[cfg_attr(kani, kani::proof)]
-#[cfg_attr(kani, kani::unwind(8))]
-pub fn c14_adjacency_list_orders_1_5() {
-    orders::<AdjacencyList>(1, 5);
+#[cfg_attr(kani, kani::unwind(9))]
+pub fn c14_adjacency_list_orders_1_3() {
+    orders::<AdjacencyList>(1, 3);
 }
 
-// @verif prop=C14 tier=quick fl=f1 role=orders/adjacency-map t=1200 mem=12
+// @verif prop=C14 tier=quick fl=f2 role=orders/adjacency-list t=1500 mem=14
+#[cfg_attr(kani, kani::proof)]
+#[cfg_attr(kani, kani::unwind(8))]
+pub fn c14_adjacency_list_orders_4_5() {
+    orders_light::<AdjacencyList>(4, 5);
+}
+
+// @verif prop=C14 tier=quick fl=f1 feat=map4 role=orders/adjacency-map t=1200 mem=12
+#[cfg_attr(kani, kani::proof)]
+#[cfg_attr(kani, kani::unwind(9))]
+pub fn c14_adjacency_map_orders_1_3() {
+    orders::<AdjacencyMap>(1, 3);
+}
+
+// @verif prop=C14 tier=quick fl=f1 role=orders/adjacency-map t=1500 mem=14
 #[cfg_attr(kani, kani::proof)]
 #[cfg_attr(kani, kani::unwind(10))]
-pub fn c14_adjacency_map_orders_1_5() {
-    orders::<AdjacencyMap>(1, 5);
+pub fn c14_adjacency_map_orders_4_5() {
+    orders_light::<AdjacencyMap>(4, 5);
 }
 
-// biclique(m, n) for m, n in 1..=3 and trivial / claw / utility, AdjacencyMatrix.
+// biclique(m, n) for m, n in 1..=2 and trivial / claw / utility, AdjacencyMatrix.
 // @verif prop=C14 tier=quick fl=f0 role=biclique/matrix t=1200 mem=12
 #[cfg_attr(kani, kani::proof)]
 #[cfg_attr(kani, kani::unwind(9))]
 pub fn c14_matrix_bicliques() {
     cx::set_vcap(8);
-    bicliques::<AdjacencyMatrix>(3, 3);
+    bicliques::<AdjacencyMatrix>(2, 2);
     named::<AdjacencyMatrix>();
 }
 
 // @verif prop=C14 tier=quick fl=f1 role=biclique/edge-list t=1200 mem=12
 #[cfg_attr(kani, kani::proof)]
-#[cfg_attr(kani, kani::unwind(9))]
+#[cfg_attr(kani, kani::unwind(20))]
 pub fn c14_edge_list_bicliques() {
     cx::set_vcap(8);
-    bicliques::<EdgeList>(3, 3);
+    bicliques::<EdgeList>(2, 2);
     named::<EdgeList>();
 }
 
@@ -315,7 +409,7 @@ pub fn c14_edge_list_bicliques() {
 #[cfg_attr(kani, kani::unwind(9))]
 pub fn c14_adjacency_list_bicliques() {
     cx::set_vcap(8);
-    bicliques::<AdjacencyList>(3, 3);
+    bicliques::<AdjacencyList>(2, 2);
     named::<AdjacencyList>();
 }
 
@@ -324,7 +418,7 @@ pub fn c14_adjacency_list_bicliques() {
 #[cfg_attr(kani, kani::unwind(10))]
 pub fn c14_adjacency_map_bicliques() {
     cx::set_vcap(8);
-    bicliques::<AdjacencyMap>(3, 3);
+    bicliques::<AdjacencyMap>(2, 2);
     named::<AdjacencyMap>();
 }
 
@@ -358,9 +452,9 @@ pub fn c14_rejects_adjacency_list() {
     rejects::<AdjacencyList>();
 }
 
-// @verif prop=C14 tier=quick fl=f1 role=rejects/adjacency-map t=1200 mem=12 expect=panic
+// @verif prop=C14 tier=quick fl=f1 feat=map4 role=rejects/adjacency-map t=1200 mem=12 expect=panic
 #[cfg_attr(kani, kani::proof)]
-#[cfg_attr(kani, kani::unwind(10))]
+#[cfg_attr(kani, kani::unwind(8))]
 pub fn c14_rejects_adjacency_map() {
     rejects::<AdjacencyMap>();
 }
@@ -369,19 +463,19 @@ pub fn c14_rejects_adjacency_map() {
 #[cfg_attr(kani, kani::proof)]
 #[cfg_attr(kani, kani::unwind(15))]
 pub fn c14_matrix_orders_6_12() {
-    orders::<AdjacencyMatrix>(6, 12);
+    orders_light::<AdjacencyMatrix>(6, 12);
 }
 
 // @verif prop=C14 tier=thorough fl=f1 role=orders/edge-list t=3600 mem=24
 #[cfg_attr(kani, kani::proof)]
-#[cfg_attr(kani, kani::unwind(10))]
-pub fn c14_edge_list_orders_6_8() {
-    orders::<EdgeList>(6, 8);
+#[cfg_attr(kani, kani::unwind(60))]
+pub fn c14_edge_list_orders_6_7() {
+    orders_light::<EdgeList>(6, 7);
 }
 
 // @verif prop=C14 tier=thorough fl=f2 role=orders/adjacency-list t=3600 mem=24
 #[cfg_attr(kani, kani::proof)]
 #[cfg_attr(kani, kani::unwind(10))]
 pub fn c14_adjacency_list_orders_6_8() {
-    orders::<AdjacencyList>(6, 8);
+    orders_light::<AdjacencyList>(6, 8);
 }
